@@ -302,6 +302,7 @@ class Runner:
         pr = PathResult()
         pr._pending = []
         p = Path(decisions, timeout_ms=700)
+        p.prune_ms = getattr(c, "prune_ms", 0)
         eng.p = p
         eng.depth = 0
         eng.ghost = {}
@@ -402,6 +403,24 @@ class Runner:
         goal = simp(goal)
         if z3.is_true(goal):
             return ob
+        local = getattr(p, "lemma_pc", {}).get(cond.get_id())
+        if local is not None:
+            # lemma about a ghost function: from the facts of its own unfolding (cached across paths), else below
+            # from the whole path condition
+            cache = self.__dict__.setdefault("_lemma_cache", {})
+            key = (goal.get_id(), tuple(a.get_id() for a in local))
+            if key not in cache:
+                ls = z3.Solver()
+                ls.set("timeout", c.timeout_ms)
+                for a in local:
+                    ls.add(a)
+                ls.add(z3.Not(goal))
+                cache[key] = ls.check() == z3.unsat
+                eng.keepalive.append(goal)
+                eng.keepalive.extend(local)
+            if cache[key]:
+                ob["lemma"] = "local"
+                return ob
         s = z3.Solver()
         s.set("timeout", c.timeout_ms)
         for a in p.pc:
@@ -673,6 +692,9 @@ class Runner:
         elif cn == "Context":
             from microjs.context import Context
             o = Context()
+        elif cn == "Lexer":
+            from microjs.lexer import Lexer
+            o = Lexer("")
         elif objs.get("__heap__"):
             o = object()            # a host object of a class the script never sees (placeholder in a counter-model)
         else:
@@ -820,5 +842,5 @@ FIELD_TYPES = {
     "CompiledFunction.free_vars": "list", "CompiledFunction.cell_vars": "list",
     "Compiler.bytecode": "list", "Compiler.source_map": "dict", "Compiler.constants": "list", "Compiler.locals": "list",
     "JSTypedArray._data": "list", "JSFunction.params": "list", "JSFunction._properties": "dict", "JSObject._key_order": "dict?",
-    "ForInIterator.keys": "list", "ForOfIterator.values": "list",
+    "ForInIterator.keys": "list", "ForOfIterator.values": "list", "Context._globals": "dict",
 }
